@@ -99,6 +99,25 @@ def desktop_random(r, name=None, exec_=None, user=b"root", want_valid=0.7):
 
 # ------------------------------------------------------------------ unit level
 
+def posix_argv(op):
+    """the argument vector of a `helper shell <hex>` line by POSIX shell quoting, in the harness's answer format; None when the
+    line is outside the plain subset (comments, control or non-ASCII bytes, backquotes, dollars) or does not parse"""
+    import shlex
+    t = op.split()
+    if len(t) != 3 or t[1] != "shell":
+        return None
+    raw = b"" if t[2] == "-" else bytes.fromhex(t[2])
+    if any(c < 0x20 or c > 0x7e for c in raw) or any(c in raw for c in b"#`$"):
+        return None
+    try:
+        words = shlex.split(raw.decode("ascii"), comments=False, posix=True)
+    except ValueError:
+        return None
+    if not words:
+        return None
+    return "ok " + ",".join(w.encode().hex() or "-" for w in words)
+
+
 def unit(ctx, exe, quick):
     r = random.Random(ctx.seed * 7 + 19)
     ops = ["helper shell " + (s.hex() or "-") for s in shell_exhaustive(4 if quick else 6)]
@@ -121,8 +140,13 @@ def unit(ctx, exe, quick):
         ctx.violate("the parser harness stopped (sanitizer/assertion?) at input %d: %s" % (i, res["stderr"][-600:]),
                     {"kind": "helper-unit", "op": ops[i] if i < len(ops) else None, "stderr": res["stderr"]}, failing_input=True)
     for (i, op, impl, mm, sp) in res["rows"][:3]:
-        ctx.violate("activation-helper parser differs from the model on %s: code=%s model=%s" % (op[:120], impl[:200], mm[:200]),
-                    {"kind": "helper-unit", "op": op, "impl": impl, "model": mm}, failing_input=False)
+        # an independent reading of the command line (Python's shlex in POSIX mode: words, quotes, backslashes as in the shell;
+        # only asked about plain printable lines without comment characters, where the three readings are meant to coincide)
+        posix = posix_argv(op)
+        wrong = posix is not None and posix == mm and posix != impl
+        ctx.violate("activation-helper parser differs from the model on %s: code=%s model=%s%s" %
+                    (op[:120], impl[:200], mm[:200], " — and from POSIX shell quoting, which gives the model's argument vector" if wrong else ""),
+                    {"kind": "helper-unit", "op": op, "impl": impl, "model": mm, "posix": posix}, failing_input=wrong)
     ctx.oblige("correspondence (helper/unit): %d command lines (every string over %d symbols up to length %d, plus generated) and %d service files: "
                "_dbus_shell_parse_argv / bus_desktop_file_load = model" % (n_shell, len(SHELL_ALPHA), 4 if quick else 6, len(ops) - n_shell),
                "correspondence", ok)
